@@ -345,7 +345,7 @@ pub fn run(ctx: &Ctx) {
     let max_len = if ctx.quick() { 5 } else { 6 };
     drive_enum(ctx, &SUBS[1], alphabet_size(max_len));
     drive_random(ctx, &SUBS[2], ctx.n(40_000, 20_000_000), 1600);
-    drive_random(ctx, &SUBS[3], ctx.n(8_000, 4_000_000), 1600);
+    drive_random(ctx, &SUBS[3], ctx.n(8_000, 4_000_000), 4000);
     if !ctx.quick() && !ctx.failed() {
         crate::fuzzing::drive_fuzz(ctx, "modules", 200000);
     }
